@@ -174,7 +174,10 @@ def run(rep, tier):
     for fn in byname["set_value_predecessor_sender"]:
         vc = value_completion(fn)
         starts = [ev for _, _, ev in fn.all_events() if ev.get("k") == "call" and callee_of(ev).endswith("::start")]
-        parks = [ev for _, _, ev in fn.all_events() if ev.get("k") == "call" and callee_short(ev) == "emplace" and P(ev.get("recv")).endswith("ts")]
+        # the values are parked in the member that the scheduler-side completion forwards from (whatever it is called)
+        fwd_text = " ".join(T(e2) for g_ in byname.get("set_value_scheduler_sender", []) for f3 in [g_] + list(g_.lambdas()) for _, _, e2 in f3.all_events())
+        parks = [ev for _, _, ev in fn.all_events() if ev.get("k") == "call" and callee_short(ev) == "emplace" and P(ev.get("recv")).startswith("this->") and
+                 P(ev.get("recv")) in fwd_text and "op_state" not in P(ev.get("recv"))]
         sched = any("schedule(" in T(ev) for _, _, ev in list(fn.all_events()) + [x for l in fn.lambdas() for x in l.all_events()] if ev.get("k") == "call")
         if vc is None and starts and parks and sched:
             rep.ok("C10.R3", fn, "predecessor's value completion parks the values, connects schedule(scheduler) and starts it; no downstream completion")
